@@ -99,6 +99,12 @@ def vf_tok(vf):
     raise ValueError(vf)
 
 
+def leaf_array(st, dtype=float):
+    """the ndarray of a `leaf` statement (values in logical C order; memory layout C or, with st[5]=='F', Fortran)"""
+    a = np.array(st[3], dtype=dtype).reshape(st[2])
+    return np.asfortranarray(a) if len(st) > 5 and st[5] == "F" else a
+
+
 def c_tok(c):
     return "N" if c is None else str(int(c))
 
@@ -118,7 +124,7 @@ def key_tok(key):
 def to_line(st) -> str:
     k = st[0]
     if k == "leaf":
-        return f"eng leaf {st[1]} {shp(st[2])} {ints(st[3])} {int(st[4])}"
+        return f"eng leaf {st[1]} {shp(st[2])} {ints(st[3])} {int(st[4])}" + (" F" if len(st) > 5 and st[5] == "F" else "")
     if k == "bin":
         return f"eng bin {st[1]} {st[2]} {operand_tok(st[3])} {operand_tok(st[4])} {c_tok(st[5])}"
     if k == "un":
@@ -220,7 +226,7 @@ class RealExec:
         k = st[0]
         v = self.v
         if k == "leaf":
-            v[st[1]] = mg.tensor(np.array(st[3], dtype=float).reshape(st[2]), constant=bool(st[4]))
+            v[st[1]] = mg.tensor(leaf_array(st), constant=bool(st[4]))
         elif k == "bin":
             v[st[1]] = MG_BIN[st[2]](self.operand(st[3]), self.operand(st[4]), constant=st[5])
         elif k == "un":
@@ -347,7 +353,7 @@ class NumpyExec:
     def _step(self, st):
         k, v = st[0], self.v
         if k == "leaf":
-            v[st[1]] = np.array(st[3], dtype=float).reshape(st[2]).copy()
+            v[st[1]] = np.copy(leaf_array(st), order="K")
         elif k == "bin":
             v[st[1]] = np.asarray(BIN[st[2]](self.operand(st[3]), self.operand(st[4])))
         elif k == "un":
@@ -518,12 +524,11 @@ class DualExec:
         self.sd[name] = set() if const else set(deps)
         arr = _obj(arr)
         if arr.base is not None or not arr.flags.owndata:
-            arr = arr.copy()
+            arr = np.copy(arr, order="K") if arr.flags.f_contiguous and not arr.flags.c_contiguous else arr.copy()
         if const:
-            flat = arr.ravel()
-            for i in range(flat.size):
-                flat[i] = D.lift(flat[i]).const()
-            arr = flat.reshape(arr.shape)
+            arr = np.copy(arr, order="K")
+            for idx in np.ndindex(arr.shape):
+                arr[idx] = D.lift(arr[idx]).const()
         self.v[name] = arr
         self.const[name] = const
         self.base[name] = None
@@ -543,7 +548,8 @@ class DualExec:
             a = np.empty(len(st[3]), dtype=object)
             for i, x in enumerate(st[3]):
                 a[i] = D(x)
-            self.new(st[1], a.reshape(st[2]), bool(st[4]))
+            a = a.reshape(st[2])
+            self.new(st[1], np.asfortranarray(a) if len(st) > 5 and st[5] == "F" else a, bool(st[4]))
         elif k == "bin":
             (a, ca), (b, cb) = self.operand(st[3]), self.operand(st[4])
             self.new(st[1], BIN[st[2]](a, b), self.infer(st[5], [ca, cb]), deps=self.opdeps(st[3], st[4]))
@@ -725,7 +731,8 @@ def bshape_for(rng, shape):
 
 class Gen:
     def __init__(self, rng, n_stmts=8, p_inplace=0.3, p_view=0.25, p_fail=0.03, p_const=0.15, inplace=True,
-                 final_back=True, multi_back=False, allow_empty=True):
+                 final_back=True, multi_back=False, allow_empty=True, f_order=True):
+        self.f_order = f_order
         self.rng = rng
         self.prog = []
         self.shape: Dict[int, Tuple[int, ...]] = {}
@@ -770,9 +777,15 @@ class Gen:
         shapes = SHAPES if self.allow_empty else [s for s in SHAPES if 0 not in s]
         s = rng.choice(shapes[:13] if rng.random() < 0.93 else shapes)
         n = self.fresh()
-        self.prog.append(["leaf", n, list(s), rand_data(rng, s), int(rng.random() < self.p_const)])
+        st = ["leaf", n, list(s), rand_data(rng, s), int(rng.random() < self.p_const)]
+        # a Fortran-ordered owner (only distinguishable from C order with >= 2 axes of length > 1)
+        fort = self.f_order and len([d for d in s if d > 1]) >= 2 and rng.random() < 0.3
+        if fort:
+            st.append("F")
+        self.prog.append(st)
         self.shape[n] = tuple(s)
-        self.known[n] = self.contig[n] = True
+        self.known[n] = True
+        self.contig[n] = not fort
 
     def add_stmt(self):
         rng = self.rng
@@ -875,13 +888,7 @@ class Gen:
         rng = self.rng
         t = self.pick()
         st = self.shape[t]
-        if not self.contig.get(t, False):
-            # the mutated copy of a non-contiguous array is allocated in NumPy's 'K' order (this happens when a view
-            # has become its own base after its base's graph was cleared): from here on the model does not know the
-            # strides of the non-contiguous members, so no `reshape` is generated on them
-            for n in self.known:
-                if not self.contig.get(n, False):
-                    self.known[n] = False
+        # (the mutated copy of the base is allocated in NumPy's 'K' order — modelled by Heap.copyArrK)
         k = rng.choice(["set", "set", "set", "aug", "aug", "outb", "outu"])
         if k == "set":
             r = rng.random()
